@@ -2,7 +2,7 @@
 """prints the markdown table of DESIGN.md section 14.5 from /verif/seeded/*/meta.json and notes.md"""
 import json, os, re
 rows = []
-for d in sorted(os.listdir('/verif/seeded')):
+for d in sorted(x for x in os.listdir('/verif/seeded') if os.path.isdir('/verif/seeded/' + x)):
     m = json.load(open('/verif/seeded/%s/meta.json' % d))
     title = ''
     try:
